@@ -3,10 +3,12 @@
 R1 every site that removes transactions from Mempool.transactions releases their reserved inputs in Mempool.utxo_map:
    on every path from the site to a success exit (or inside the retain-style closure that decides the removal)
 R2 every site that inserts into Mempool.transactions outside Mempool::add_transaction records the reservation
+R4 a reservation is released only for a transaction that actually left the pool (the released key derives from the value
+   returned by transactions.remove(), from the element a retain closure drops, or from the block built by draining the pool)
 R3 bundling failure leaves the pool unchanged: after the draining call in bundle_block no None exit is reachable
    without re-inserting into Mempool.transactions
 """
-from ..expr import Chaser, call_name, calls_in
+from ..expr import Chaser, call_name, calls_in, has_field, show, walk
 from ..fields import FieldAnalysis
 from ..paths import Explorer, describe_path
 from ..report import Finding, Result
@@ -72,6 +74,7 @@ def run(prog, tier, extra=None):
     res = Result("C14", "other")
     R1 = res.rule("C14.release", "removing pooled transactions releases their input reservations", floor=3)
     R2 = res.rule("C14.reserve", "inserting pooled transactions records their input reservations", floor=1)
+    R4 = res.rule("C14.release-only-removed", "utxo_map entries are released only for transactions that left the pool", floor=3)
     R3 = res.rule("C14.bundle-atomic", "bundle_block: no failure exit after the pool was drained without re-insertion", floor=1)
     fa = FieldAnalysis(prog)
     tx_sites, map_sites = {}, {}
@@ -137,6 +140,55 @@ def run(prog, tier, extra=None):
                                     % (name, "::".join(short)), b.loc(bb), {"path": describe_path(b, [bb] + p)}))
                 else:
                     res.sample({"rule": R2, "site": b.loc(bb), "body": name, "verdict": "every success path reserves in utxo_map"})
+
+    # R4: a reservation is released only for a transaction that left the pool
+    for path, (b, sites) in sorted(map_sites.items()):
+        name = path.split("::", 4)[-1]
+        chb = Chaser(b)
+        n = 0
+        for s_ in sites:
+            if s_[0] != "call" or s_[3] != "remove" or s_[2].rsplit("::", 1)[-1] not in ("remove", "remove_entry"):
+                continue
+            t = b.term(s_[1])
+            if len(t["args"]) < 2:
+                continue
+            res.instance(R4)
+            key = chb.origin(t["args"][1])
+            ok = None
+            for x in walk(key):
+                if x[0] == "call" and x[1].rsplit("::", 1)[-1] in ("remove", "remove_entry", "take", "pop") and any(
+                        has_field(a, MEMPOOL, "transactions") for a in x[2][:1]):
+                    ok = "the key comes from the transaction returned by transactions.%s()" % x[1].rsplit("::", 1)[-1]
+                if x[0] == "call" and x[1].endswith("block::Block::create"):
+                    ok = "the key comes from the block built by draining the pool"
+                if x[0] == "yield":
+                    pass
+            if ok is None and b.kind == "Closure" and not b.is_coroutine:
+                # a retain-style closure over the pool: the key comes from the element being decided
+                parent = prog.bodies.get(b.parent)
+                used_by_retain = False
+                if parent is not None:
+                    pch = Chaser(parent)
+                    for pbb, pt in parent.calls():
+                        if (call_name(pt) or "").rsplit("::", 1)[-1] in ("retain", "retain_mut", "extract_if") and pt["args"] and \
+                                has_field(pch.origin(pt["args"][0]), MEMPOOL, "transactions"):
+                            for a in pt["args"][1:]:
+                                if any(y[0] == "agg" and y[1][0] == "closure" and y[1][1] == b.path for y in walk(pch.origin(a))):
+                                    used_by_retain = True
+                if used_by_retain and any(y[0] == "param" and y[1] >= 2 for y in walk(key)):
+                    ok = "inside the retain closure over the pool: the key comes from the element being dropped"
+            # block created from the pool and awaited: (poll(..Block::create..) as Ready).0 ...
+            if ok is None and any(y[0] == "call" and y[1] == "std::future::Future::poll" and
+                                  (b.term(y[3]).get("res") or "").startswith(CORE + "consensus::block::Block::create") for y in walk(key)):
+                ok = "the key comes from the block built by draining the pool"
+            if ok:
+                res.sample({"rule": R4, "site": b.loc(s_[1]), "body": name, "verdict": ok})
+            else:
+                res.add(Finding(R4, "C14.release-only-removed|%s|%d" % (path, n),
+                                "%s releases an input reservation whose key (%s) does not come from a transaction that was removed from the pool: "
+                                "a pooled transaction spending that output loses its reservation and a conflicting spender can enter the pool"
+                                % (name, show(key)[:90]), b.loc(s_[1])))
+            n += 1
 
     # R3
     bpath = CORE + "consensus::mempool::Mempool::bundle_block::{closure#0}"
